@@ -554,11 +554,15 @@ def compare(cfg, impl, model):
         if nl != b["out"]:
             dis.append(f"line {i}: {nl} rows written vs model {b['out']}"); break
     if not dis:
-        mr = canon_model_rows(model.rows, cfg)
-        if mr != impl.rows:
-            for j, (x, y) in enumerate(zip(impl.rows, mr)):
+        # decoration rows, blank rows and empty raw rows are all "nothing visible": the properties are about
+        # rows that carry text, and the number of rows per input line has been compared above
+        soft = lambda rows: [("empty", "") if (k in ("deco", "blank") or (k == "raw" and t == "")) else (k, t) for k, t in rows]
+        mr = soft(canon_model_rows(model.rows, cfg))
+        ir = soft(impl.rows)
+        if mr != ir:
+            for j, (x, y) in enumerate(zip(ir, mr)):
                 if x != y:
                     dis.append(f"row {j}: impl {x!r} vs model {y!r}"); break
             else:
-                dis.append(f"row count {len(impl.rows)} vs model {len(mr)}")
+                dis.append(f"row count {len(ir)} vs model {len(mr)}")
     return dis
